@@ -169,8 +169,9 @@ class ProgressIndicator(object):
         Overwrites a previous message to the output.
         """
         if self._io.supports_ansi():
-            self._io.write("\x0D\x1B[2K")
-            self._io.write(message)
+            # One write per frame: the spinner thread and the caller may both redraw,
+            # and an erase followed by a separate write can interleave into a mixed line
+            self._io.write("\x0D\x1B[2K" + message)
         else:
             self._io.write_line(message)
 
